@@ -109,6 +109,12 @@ func extractTables(files map[string]*srcFile) (map[string]lval, []string) {
 					args := make([]string, len(call.Args))
 					for i, a := range call.Args {
 						args[i] = f.sf.oneLine(a)
+						// a named package-level constant stands for its value
+						if id, ok := a.(*ast.Ident); ok {
+							if v, ok := pkgLevelValue(f.sf, id.Name).(*ast.BasicLit); ok {
+								args[i] = v.Value
+							}
+						}
 					}
 					if call.Ellipsis.IsValid() {
 						args = append(args, "...")
@@ -153,6 +159,11 @@ func extractTables(files map[string]*srcFile) (map[string]lval, []string) {
 	// g. operator strings and orders
 	for _, t := range [][2]string{{"matchOpStrings", "MatchOperator"}, {"unaryOpStrings", "UnaryOperator"}, {"binaryOpStrings", "BinaryOperator"}} {
 		var ps [][2]string
+		if tab, ok := opNameTable(findFn(t[1]+".String", as), as); ok {
+			// the same function written as a lookup in a keyed name table
+			vals[t[0]] = lPairs(tab)
+			continue
+		}
 		for _, e := range opSwitch(findFn(t[1]+".String", as), t[1]+".String") {
 			switch {
 			case e.bad != "":
@@ -434,6 +445,160 @@ func opSwitch(f *fnDecl, fname string) []opEntry {
 		out = append(out, opEntry{bad: unk("no switch over the receiver in " + fname)})
 	}
 	return out
+}
+
+// pkgLevelValue finds the initialiser of the package-level `var name = …` / `const name = …` of a file.
+func pkgLevelValue(sf *srcFile, name string) ast.Expr {
+	if sf == nil || sf.file == nil {
+		return nil
+	}
+	for _, d := range sf.file.Decls {
+		gd, ok := d.(*ast.GenDecl)
+		if !ok || (gd.Tok != token.VAR && gd.Tok != token.CONST) {
+			continue
+		}
+		for _, sp := range gd.Specs {
+			vs, ok := sp.(*ast.ValueSpec)
+			if !ok || len(vs.Values) != len(vs.Names) {
+				continue
+			}
+			for i, n := range vs.Names {
+				if n.Name == name {
+					return vs.Values[i]
+				}
+			}
+		}
+	}
+	return nil
+}
+
+// strOrConst: a string literal, or an identifier naming a package-level string constant.
+func strOrConst(sf *srcFile, e ast.Expr) (string, bool) {
+	if s, ok := stringLit(e); ok {
+		return s, true
+	}
+	if id, ok := e.(*ast.Ident); ok {
+		if v := pkgLevelValue(sf, id.Name); v != nil {
+			return stringLit(v)
+		}
+	}
+	return "", false
+}
+
+// opNameTable recognises a String method written as a lookup in a keyed table of names:
+//
+//	func (op T) String() string {
+//		if op < 0 || int(op) >= len(names) { return D }      // array / slice table
+//		return names[op]
+//	}
+//	func (op T) String() string {
+//		if s, ok := names[op]; ok { return s }               // map table
+//		return D
+//	}
+//
+// where `names` is a package-level array, slice or map literal all of whose elements are
+// `Constant: "name"`.  It yields the same (constant, name) pairs as the switch form, plus
+// ("default", D).  Any other shape is not a table (ok = false) and the switch reader reports it.
+func opNameTable(f *fnDecl, sf *srcFile) ([][2]string, bool) {
+	if f == nil || f.fd.Body == nil || len(f.fd.Body.List) != 2 {
+		return nil, false
+	}
+	recv := recvName(f.fd)
+	if recv == "" {
+		return nil, false
+	}
+	guard, ok := f.fd.Body.List[0].(*ast.IfStmt)
+	ret, ok2 := f.fd.Body.List[1].(*ast.ReturnStmt)
+	if !ok || !ok2 || guard.Else != nil || len(ret.Results) != 1 {
+		return nil, false
+	}
+	gr := singleReturn(guard.Body.List, 1)
+	if gr == nil {
+		return nil, false
+	}
+	indexOf := func(e ast.Expr) (string, bool) { // names[op] / names[int(op)]
+		ix, ok := unparen(e).(*ast.IndexExpr)
+		if !ok {
+			return "", false
+		}
+		id, ok := ix.X.(*ast.Ident)
+		if !ok {
+			return "", false
+		}
+		arg := unparen(ix.Index)
+		if c, ok := arg.(*ast.CallExpr); ok && len(c.Args) == 1 && (isIdent(c.Fun, "int") || isIdent(c.Fun, "uint")) {
+			arg = unparen(c.Args[0])
+		}
+		if !isIdent(arg, recv) {
+			return "", false
+		}
+		return id.Name, true
+	}
+	var table, deflt string
+	var dexpr ast.Expr
+	isMap := false
+	if guard.Init == nil {
+		// if op < 0 || int(op) >= len(names) { return D } ; return names[op]
+		t, ok := indexOf(ret.Results[0])
+		if !ok {
+			return nil, false
+		}
+		want1 := []string{recv, "<", "0", "||", "int", "(", recv, ")", ">=", "len", "(", t, ")"}
+		want2 := []string{"int", "(", recv, ")", ">=", "len", "(", t, ")", "||", recv, "<", "0"}
+		c := f.sf.toks(guard.Cond)
+		if !sameStrings(c, want1) && !sameStrings(c, want2) {
+			return nil, false
+		}
+		table, dexpr = t, gr.Results[0]
+	} else {
+		// if s, ok := names[op]; ok { return s } ; return D
+		as, ok := guard.Init.(*ast.AssignStmt)
+		if !ok || as.Tok != token.DEFINE || len(as.Lhs) != 2 || len(as.Rhs) != 1 {
+			return nil, false
+		}
+		v, ok1 := as.Lhs[0].(*ast.Ident)
+		okv, ok2 := as.Lhs[1].(*ast.Ident)
+		t, ok3 := indexOf(as.Rhs[0])
+		if !ok1 || !ok2 || !ok3 || !isIdent(guard.Cond, okv.Name) || !isIdent(gr.Results[0], v.Name) {
+			return nil, false
+		}
+		table, dexpr, isMap = t, ret.Results[0], true
+	}
+	d, ok := strOrConst(sf, dexpr)
+	if !ok {
+		return nil, false
+	}
+	deflt = d
+	cl, ok := pkgLevelValue(sf, table).(*ast.CompositeLit)
+	if !ok || len(cl.Elts) == 0 {
+		return nil, false
+	}
+	switch ty := cl.Type.(type) {
+	case *ast.ArrayType:
+		if isMap || !isIdent(ty.Elt, "string") {
+			return nil, false
+		}
+	case *ast.MapType:
+		if !isMap || !isIdent(ty.Value, "string") {
+			return nil, false
+		}
+	default:
+		return nil, false
+	}
+	var out [][2]string
+	for _, el := range cl.Elts {
+		kv, ok := el.(*ast.KeyValueExpr)
+		if !ok {
+			return nil, false
+		}
+		k, ok1 := kv.Key.(*ast.Ident)
+		v, ok2 := strOrConst(sf, kv.Value)
+		if !ok1 || !ok2 {
+			return nil, false
+		}
+		out = append(out, [2]string{k.Name, v})
+	}
+	return append(out, [2]string{"default", deflt}), true
 }
 
 // matchDispatch reads the `switch expression.Operator` of evaluateMatchExpression.
